@@ -18,5 +18,6 @@ mkdir -p cases generated
 (cd .. && PYTHONPATH=/repo/src /venv/bin/python harness/translate_pop.py) || echo "population split translator aborted; C10 will report it"
 (cd .. && PYTHONPATH=/repo/src /venv/bin/python harness/translate_conv.py) || echo "converter translator aborted; C20/C01 will report it"
 (cd .. && PYTHONPATH=/repo/src /venv/bin/python harness/translate_shc.py) || echo "stochastic-acceptance translator aborted; C09 will report it"
+(cd .. && PYTHONPATH=/repo/src /venv/bin/python harness/translate_seed.py) || echo "seeding translator aborted; C07 will report it"
 coq_makefile -f _CoqProject -o Makefile >/dev/null
 timeout 3000 make -k -j"$(nproc)" 2>&1 | tail -5
